@@ -23,7 +23,13 @@ import (
 
 // VerifC02Compile is VerifCompileRoutingSections with the group ids given explicitly (ids[i] for groups[i]) so that
 // outbound ids anywhere in the user-defined range occur. direct/block keep their reserved ids.
-func VerifC02Compile(sections []*config_parser.Section, groups []string, ids []uint8, optimizers []routing.RulesOptimizer) (*VerifRouting, error) {
+//
+// snapshotAfterUserspace selects WHEN the kernel-side material is taken:
+//   false: before BuildUserspace — the cold-start order of NewControlPlane (BuildKernspace runs first);
+//   true : the staged-reload / rollback order (delayDatapathCommit -> CommitPreparedDatapath, RebuildReloadDatapath):
+//          builder.KernspaceSnapshot() is taken first, BuildUserspace() runs, and only then the snapshot's rules and
+//          prefix sets are read — exactly what routingKernspaceSnapshot.BuildKernspace hands to buildRoutingKernspace.
+func VerifC02Compile(sections []*config_parser.Section, groups []string, ids []uint8, optimizers []routing.RulesOptimizer, snapshotAfterUserspace bool) (*VerifRouting, error) {
 	conf, err := config.New(sections)
 	if err != nil {
 		return nil, fmt.Errorf("config.New: %w", err)
@@ -50,12 +56,26 @@ func VerifC02Compile(sections []*config_parser.Section, groups []string, ids []u
 		return nil, fmt.Errorf("builder: %w", err)
 	}
 	v.Builder = b
-	// what KernspaceSnapshot()/BuildKernspace hand to buildRoutingKernspace
-	v.kernRules = append([]bpfMatchSet(nil), b.rules...)
-	v.lpmSets = append([][]netip.Prefix(nil), b.simulatedLpmTries...)
+	snap := b.KernspaceSnapshot() // control_plane.go: taken before BuildUserspace in every order
+	if !snapshotAfterUserspace {
+		// BuildKernspace before BuildUserspace: what buildRoutingKernspace reads at that moment
+		v.kernRules = append([]bpfMatchSet(nil), snap.rules...)
+		v.lpmSets = make([][]netip.Prefix, len(snap.simulatedLpmTries))
+		for i, set := range snap.simulatedLpmTries {
+			v.lpmSets[i] = append([]netip.Prefix(nil), set...)
+		}
+	}
 	m, err := b.BuildUserspace()
 	if err != nil {
 		return nil, fmt.Errorf("userspace: %w", err)
+	}
+	if snapshotAfterUserspace {
+		// snapshot.BuildKernspace after BuildUserspace: what buildRoutingKernspace reads from the snapshot now
+		v.kernRules = append([]bpfMatchSet(nil), snap.rules...)
+		v.lpmSets = make([][]netip.Prefix, len(snap.simulatedLpmTries))
+		for i, set := range snap.simulatedLpmTries {
+			v.lpmSets[i] = append([]netip.Prefix(nil), set...)
+		}
 	}
 	v.Matcher = m
 	v.CP = &ControlPlane{log: log}
